@@ -125,6 +125,34 @@ CORPUS = [
                                      (_ci("z"), _ap("divide", _ci("a"), _ap("times", _ci("b"), _ap("minus", _ci("d"))))),
                                      (_ci("w"), _ap("and", _ap("lt", _ci("a"), _ci("b")), _ap("not", _ci("d")))),
                                      (_ap("diff", "<bvar>%s</bvar>" % _ci("t"), _ci("x")), _ap("plus", _ci("x"), _ci("t")))]), None),
+    # one equation per parenthesisation decision of generateOperatorCode that the generator gets right
+    ("control_parentheses", _one_component("control_parentheses", [("a", "2"), ("b", "3"), ("d", "5"), ("e", "-4")] + [("y%d" % i, None) for i in range(1, 27)], [
+        (_ci("y1"), _ap("minus", _ci("a"), _ap("minus", _ci("b"), _ci("d")))),
+        (_ci("y2"), _ap("minus", _ci("a"), _ap("plus", _ci("b"), _ci("d")))),
+        (_ci("y3"), _ap("times", _ap("plus", _ci("a"), _ci("b")), _ci("d"))),
+        (_ci("y4"), _ap("times", _ci("a"), _ap("minus", _ci("b"), _ci("d")))),
+        (_ci("y5"), _ap("divide", _ci("a"), _ap("times", _ci("b"), _ci("d")))),
+        (_ci("y6"), _ap("divide", _ci("a"), _ap("divide", _ci("b"), _ci("d")))),
+        (_ci("y7"), _ap("divide", _ap("minus", _ci("a"), _ci("b")), _ci("d"))),
+        (_ci("y8"), _ap("minus", _ap("plus", _ci("a"), _ci("b")))),
+        (_ci("y9"), _ap("minus", _ap("minus", _ci("a"), _ci("b")))),
+        (_ci("y10"), _ap("power", _ap("plus", _ci("a"), _ci("b")), _ap("minus", _ci("d"), _ci("b")))),
+        (_ci("y11"), _ap("root", "<degree>%s</degree>" % _ap("plus", _ci("a"), _ci("b")), _ci("d"))),
+        (_ci("y12"), _ap("and", _ap("lt", _ci("a"), _ci("b")), _ap("leq", _ci("b"), _ci("d")))),
+        (_ci("y13"), _ap("or", _ap("geq", _ci("a"), _ci("b")), _ap("gt", _ci("d"), _ci("b")))),
+        (_ci("y14"), _ap("xor", _ap("gt", _ci("a"), _ci("b")), _ap("neq", _ci("b"), _ci("d")))),
+        (_ci("y15"), _ap("plus", _ci("a"), _pw([(_ci("b"), _ap("lt", _ci("a"), _ci("d")))], _ci("d")))),
+        (_ci("y16"), _ap("minus", _ci("a"), _cn("-4"))),
+        (_ci("y17"), _ap("leq", _ci("a"), _ci("b"))),
+        (_ci("y18"), _ap("geq", _ci("a"), _ci("b"))),
+        (_ci("y19"), _ap("times", _ci("a"), _ci("b"), _ci("d"), _ci("e"))),
+        (_ci("y20"), _ap("minus", _ap("minus", _ci("a"), _ci("b")), _ci("d"))),
+        (_ci("y21"), _ap("log", "<logbase>%s</logbase>" % _cn(2), _ap("times", _ci("a"), _ci("b")))),
+        (_ci("y22"), _ap("not", _ci("a"))),
+        (_ci("y23"), _ap("plus", _ci("a"), _ci("b"), _ci("d"), _ci("e"))),
+        (_ci("y24"), _ap("divide", _ap("times", _ci("a"), _ci("b")), _ap("plus", _ci("d"), _ci("e")))),
+        (_ci("y25"), _ap("power", _ci("a"), _ap("minus", _ci("b")))),
+        (_ci("y26"), _pw([(_ci("a"), _ap("gt", _ci("a"), _ci("b"))), (_ci("b"), _ap("gt", _ci("b"), _ci("d")))], _ap("times", _ci("d"), _ci("e"))))]), None),
 ]
 
 
@@ -404,7 +432,7 @@ def _nla_dependent(res, desc):
     changed = True
     while changed:
         changed = False
-        for table, rate in ((res.expl_def, False), (res.ode_def, True)):
+        for table in (res.expl_def, res.ode_def):
             for k, (comp, _x, body) in table.items():
                 if k in dep:
                     continue
@@ -488,7 +516,6 @@ def process(ctx, build, drv, mdl, models, workdir, tag):
     for r in prepared:
         if r["status"] != "ok":
             continue
-        J = r["judged"]
         r["recs"], r["upper"], r["prim"] = analyse_shapes(r["desc"], r["res"], r["info"], mdl, workdir, tag + "_" + r["model"]["name"])
     return prepared
 
@@ -556,7 +583,7 @@ def report(ctx, r, counters, max_violations=5):
             ctx.violation("C03 model %s, %s profile: %s%s" % (
                 m["name"], "C" if lang == "C" else "Python", v["what"],
                 (": expected %r, got %r" % (detail["expected"], detail["got"])) if "expected" in detail else ""),
-                "model_%s_%s.json" % (m["name"], lang), content)
+                "model_%s_%s_%d.json" % (m["name"], lang, counters["violations"]), content)
     if J.cross and not J.failures["C"] and not J.failures["Py"]:
         # both agree with the reference within tolerance yet differ from each other beyond it, or the reference is silent
         counters["violations"] += 1
